@@ -88,6 +88,10 @@ class AccessToken(access_token.AccessToken):
                     raise ParameterError('Someone has messed with "nonce"')
             except KeyError:
                 raise ValueError("Invalid nonce value")
+            # and it is the nonce this session's request was sent with, not some other value
+            # (a subject, a session id) that happens to be bound to the session
+            if _idt["nonce"] != _cstate.get_claim(key, "nonce"):
+                raise ParameterError('Someone has messed with "nonce"')
 
             _cstate.bind_key(_idt["sub"], key)
 
